@@ -47,7 +47,7 @@ def _mem_diff(prev: dict, cur: dict):
 
 
 def run(case, mode="single", detect=True, dcache=None, icache=None, max_steps=400, stop_after=None,
-        regs_each_step=False, sim_hook=None):
+        regs_each_step=False, sim_hook=None, pre_step=None):
     """Run `case` (prog, regs, mem). single: at most max_steps instructions. five: at most max_steps cycles, and
     stop once `stop_after` instructions have retired (used for prefix comparison of non-terminating programs)."""
     from architecture_simulator.simulation.runtime_errors import InstructionExecutionException
@@ -73,6 +73,8 @@ def run(case, mode="single", detect=True, dcache=None, icache=None, max_steps=40
             break
         pc_before = sim.state.program_counter
         regs_before = None
+        if pre_step:
+            pre_step(sim)
         try:
             sim.step()
         except InstructionExecutionException as ex:
